@@ -143,6 +143,25 @@ func init() {
 		},
 		"that ucmp's zero-padding loop compares the right words (loop arithmetic)",
 		techCDAI, cdaiAssume, fxAssume)
+	p("C17",
+		[]string{"GOB", "FX-STICKY@GobDecode", "FX-OWN@GobDecode"},
+		[]string{
+			"GOB G1: every buf[k], buf[k:] and fixed-width read in GobDecode is dominated by a comparison establishing len(buf) >= what it needs (no panic on truncated input).",
+			"G2: the decoded mode, accuracy and form are compared with the largest enumerator before being stored; the decoded mantissa is rejected unless non-empty, normalised (top word >= base/10), every word < base (a test inside a loop over the mantissa whose header dominates the store) and its digit count fits the decoded precision (so finite implies precision > 0); it is decoded into a fresh buffer.",
+			"G3: GobEncode and GobDecode agree on (shift, mask, bias) of every header field and on the byte offsets of prec, exp and mantissa.",
+			"G4: a receiver whose precision was not 0 gets its precision and mode back (every success exit passes the restoring block, which calls SetPrec(oldPrec), i.e. rounds); G5: the version is tested before anything is decoded.",
+		},
+		"value equality after a round trip (word order inside dec.bytes/setBytes is loop arithmetic)",
+		"dominance/interval analysis on the SSA form of GobDecode plus sibling agreement with GobEncode", fxAssume)
+	p("C19",
+		[]string{"CTX", "FX-IMMUT@context."},
+		[]string{
+			"CTX T1: every Context operation with a result parameter z tests c.err before any effect and, while latched, returns z from a block without calls or stores; T2: the decimal operation is applied to c.apply(z) (Set: c.apply(z.Copy(x))) and apply leaves z with c.mode and c.prec on every path.",
+			"T3: every operation whose decimal counterpart may panic with ErrNaN (computed over the call graph) defers a handler that calls recover, latches into c.err only a value whose dynamic type was asserted to be decimal.ErrNaN, re-panics anything else with the original value, and sets the named result to z; T4: operations without a handler call only operations that cannot panic with ErrNaN.",
+			"T5: c.err is written only by those handlers and by Err, which returns the value loaded before clearing; T6: the New* factories build on c.New(), which carries c.mode and c.prec; T7: SetMode/SetPrec/New store their (clamped) arguments. FX-IMMUT: operands of Context operations are never written.",
+		},
+		"numeric correctness of the wrapped operation (C01); that NewFloat64(NaN) panics through a Context is recorded as an observation, not armed",
+		"typestate rules on the SSA form of package context (dominance of the latch test, must-call of apply, shape of the deferred recover handlers)", fxAssume)
 	p("C18",
 		[]string{"FX-IMMUT", "FX-OWN", "FX-GLOBAL"},
 		[]string{
